@@ -19,9 +19,13 @@ class S2D(Sym):
         self.nrows, self.ncols, self._fn, self.rowmask, self.kind = nrows, ncols, fn, rowmask, kind
 
     def at(self, r, c):
-        return self._fn(r, c)
+        return self.snap()(r, c)
 
     def snap(self):
+        """pure closure of the current contents (a view reads the contents its base has NOW)"""
+        base = getattr(self, "view_of", None)
+        if base is not None:
+            return base.snap()
         return self._fn
 
     def column(self, c):
@@ -31,11 +35,11 @@ class S2D(Sym):
             a.parent2d = (self, c)
 
             def snap_now(m=self, c=c):
-                f = m._fn            # contents at the time of the read (numpy evaluates eagerly)
+                f = m.snap()         # contents at the time of the read (numpy evaluates eagerly)
                 return lambda r: f(r, c)
             a.snap_hook = snap_now
             return a
-        f = self._fn
+        f = self.snap()
         return SCompressed(lambda r: f(r, c), self.rowmask, self.nrows, self.kind, src=(self, c))
 
     def write(self, I, newfn):
@@ -56,10 +60,19 @@ def getitem2d(I, m, idx):
                 raise Unsupported("second row selection")
             rs = r.snap()
             return S2D(m.nrows, m.ncols, m.snap(), rowmask=lambda i: V.bterm(rs(i)), kind=m.kind)
+        if isinstance(r, slice) and r == slice(None, None, None) and isinstance(c, slice) and c.step is None \
+                and c.start in (None, 0) and isinstance(c.stop, int) and 0 <= c.stop <= m.ncols:
+            # leading columns, for reading only (numpy would give a view; a store through it is not modelled)
+            v = S2D(m.nrows, c.stop, None, rowmask=m.rowmask, kind=m.kind)
+            v.view_of = m
+            v.read_only_view = True
+            return v
     raise Unsupported(f"2-D index {idx!r}")
 
 
 def setitem2d(I, m, idx, value):
+    if getattr(m, "read_only_view", False):
+        raise Unsupported("store through a column-range view")
     if isinstance(idx, tuple) and len(idx) == 2 and isinstance(idx[1], int):
         sel, c = idx
         old = m.snap()
@@ -80,6 +93,15 @@ def setitem2d(I, m, idx, value):
             if not A.same_mask(I, sel.maskfn, m.rowmask):
                 raise Unsupported("row selection with a different mask")
             sf, rm = sel.fn, m.rowmask
+            if isinstance(value, SCompressed):
+                # the value is itself a selection (of the selected rows where sel holds): row r gets its own value
+                if not A.same_mask(I, value.maskfn, lambda r: z3.And(rm(r), V.bterm(sf(r)))):
+                    raise Unsupported("store of a selection with a different mask")
+                vf = value.fn
+                m.write(I, lambda r, cc: A.ite_val(z3.And(rm(r), V.bterm(sf(r))), vf(r), old(r, cc)) if cc == c else old(r, cc))
+                return
+            if A.is_arraylike(value):
+                raise Unsupported("2-D store of an array value")
             m.write(I, lambda r, cc: A.ite_val(z3.And(rm(r), V.bterm(sf(r))), value, old(r, cc)) if cc == c else old(r, cc))
             return
     raise Unsupported(f"2-D store {idx!r}")
@@ -98,6 +120,13 @@ def install(I):
                 if isinstance(s, int) and s == 0:
                     return False
                 return SBool({"any": s != 0, "pos": s == 1, "neg": s == -1}[which])
+            if isinstance(x, S2D):
+                fm = x.snap()
+
+                def cell(r, c):
+                    v = one(fm(r, c))
+                    return v if isinstance(v, SBool) else SBool(z3.BoolVal(bool(v)))
+                return S2D(x.nrows, x.ncols, cell, x.rowmask, "bool")
             if A.is_arraylike(x):
                 return A.elementwise(I, one, x, kind="bool")
             return one(x)
@@ -139,9 +168,18 @@ def install(I):
     L["numpy.sum"] = np_sum
 
     def any2d(I, self, axis=None, **k):
+        f = self.snap()
+        if axis == 0:
+            # one truth value per column (the number of columns is concrete): "some existing row has it"
+            out = []
+            n = V.iterm(self.nrows)
+            for c in range(self.ncols):
+                r = z3.Int(fresh("anyrow"))
+                inrow = z3.And(r >= 0, r < n) if self.rowmask is None else z3.And(r >= 0, r < n, self.rowmask(r))
+                out.append(SBool(z3.Exists([r], z3.And(inrow, V.bterm(f(r, c))))))
+            return out
         if axis != 1:
             raise Unsupported("2-D any along this axis")
-        f = self.snap()
 
         def row(r):
             return SBool(z3.Or(*[V.bterm(f(r, c)) for c in range(self.ncols)]))
@@ -197,7 +235,11 @@ def install(I):
 
     old_any = L["numpy.any"]
 
-    def np_any(I, a):
+    def np_any(I, a, axis=None, **k):
+        if isinstance(a, S2D):
+            return any2d(I, a, axis=axis)
+        if axis is not None or k:
+            raise Unsupported("np.any with axis / keywords on this value")
         if isinstance(a, SCompressed):
             k = z3.Int(fresh("any"))
             n = V.iterm(a.length)
